@@ -130,8 +130,9 @@ impl TourModel {
     fn enabled(&self, fx: &Fixture) -> Vec<TourOp> {
         let mut ops = vec![];
         for a in 0..fx.acts.len() {
-            // the same task is placed at most once (as the library does); multi parts are independent
-            if self.seq.contains(&a) {
+            // the library itself places a task at most once, the tour API does not forbid a second copy: one repetition is
+            // part of the alphabet (removing the job takes every copy out)
+            if self.seq.iter().filter(|x| **x == a).count() >= 2 || (self.seq.contains(&a) && self.seq.len() >= 3) {
                 continue;
             }
             for i in 1..=self.seq.len() + 1 {
